@@ -140,6 +140,8 @@ class C20(HistoryProperty):
         for n in spec["nodes"]:
             if n["k"] == "dsclass" and rng.random() < 0.5:
                 n["nested"] = True
+            if n["k"] == "dataset" and rng.random() < 0.15:
+                n["fn_attrs"] = True  # (explicit form only: the function carries unpicklable attributes of other decorators)
         form = "decorator" if rng.random() < 0.12 else "explicit"
         ops = gen_history(rng, cfg, spec, n_ops=rng.randint(3, 12), ops_kinds=("evaluate", "evaluate", "evaluate", "keys", "validate"))
         r = rng.randrange(0, len(ops))
